@@ -6,6 +6,7 @@ by the independent reader: only binary + - * /, leaves are numbers or fluent ter
 D_out(p) must equal k * D_in(p) (k > 0 for inequalities and bare expressions, k != 0 for equalities,
 one k for all points) up to the rounding the requested number of decimals allows, on points that
 satisfy the equalities used for elimination; a condition may be omitted only if it is implied."""
+import copy
 import json
 import os
 from fractions import Fraction
@@ -628,12 +629,16 @@ def gen(ch, tier):
     cls = ch.weighted([(4, "dec"), (3, "int"), (2, "near"), (1, "tiny"), (3, "long")])
     entry = ch.weighted([(3, "ineq"), (2, "eq"), (2, "expr"), (2, "tree"), (3, "print")])
     digits = ch.choice([None, 0, 1, 2, 3, 4, 5, 6, 4, 4])
-    shape = ch.weighted([(5, "poly"), (1, "quotient"), (1, "factored")])
+    shape = ch.weighted([(10, "poly"), (2, "quotient"), (2, "factored"), (1, "square")])
     maxdeg = ch.weighted([(3, 1), (3, 2), (2, 3)])
 
     def side():
         if shape == "quotient":
             return ["/", gen_poly(ch, terms, min(maxdeg, 2), cls, 2), gen_monomial(ch, terms, 1, "int")]
+        if shape == "square":
+            # a product of proportional sums: sympy turns it into a power with a compound base, c * (x + y)**2
+            pz = gen_poly(ch, terms, 1, "int", 2)
+            return ["*", pz, ["*", copy.deepcopy(pz), ch.choice(["2", "3", "0.5", "-1"])]] if ch.flag(0.6) else ["*", pz, copy.deepcopy(pz)]
         if shape == "factored" and len(terms) >= 1:
             return ["*", gen_poly(ch, terms, 1, cls, 2), gen_poly(ch, terms, 1, cls, 2)]
         return gen_poly(ch, terms, maxdeg, cls)
